@@ -6,7 +6,7 @@ import os
 import struct
 
 from vf.core import SECTOR, Model, as_handle, rng_for
-from vf.diskcheck import compare_reads, continuation_reads, crossing_count, gen_requests, mismatch_detail
+from vf.diskcheck import compare_reads, continuation_reads, fault_retry_reads, crossing_count, gen_requests, mismatch_detail
 from vf.monitors import call
 from vf.writers import vhd as w
 
@@ -177,6 +177,7 @@ def run(case: dict, ctx) -> dict:
         res["viol"].append({"what": "size mismatch", "mech": MECH, "detail": {"got": v.size, "exp": meta["size"]}})
     reqs, exhaustive = gen_requests(rng, meta["size"], units, n_random=40 if ctx.tier == "quick" else 150)
     continuation_reads(v, model, reqs, rng, res, MECH)
+    fault_retry_reads(v, model, reqs, rng, res, MECH)
     compare_reads(v, model, reqs, res, MECH)
     # sector interface inside the disk
     nsec_total = meta["size"] // SECTOR
